@@ -326,6 +326,41 @@ def dev_unit(name, units, args):
     return rc
 
 
+def scan(units):
+    """Mechanical scan for assumptions: every `assume(`, `admit(`, `external_body`, `assume_specification`, ... in the
+    woven text of each Verus unit, next to the unit's declared trusted base; Kani units list kani::assume / stub."""
+    repo = Repo(REPO)
+    rc = 0
+    for name, m in sorted(units.items()):
+        if m.ENGINE == "verus":
+            try:
+                vf = m.build(repo)
+            except Exception as e:
+                print("== %s: cannot build (%s)" % (name, e))
+                rc = 2
+                continue
+            found = vf.scan_trusted()
+            kinds = {}
+            for _, kw, _ in found:
+                kinds[kw] = kinds.get(kw, 0) + 1
+            print("== %s (verus): %d assumption sites %s; %d declared trusted entries" % (name, len(found), kinds, len(vf.trusted)))
+            for t in vf.trusted:
+                print("     trusted: " + t[:200])
+            if found and not vf.trusted:
+                print("     UNDECLARED assumptions!")
+                rc = 2
+        else:
+            n_assume = n_stub = 0
+            for _, hf in m.INJECT:
+                txt = open(os.path.join(ROOT, hf)).read()
+                n_assume += txt.count("kani::assume")
+                n_stub += txt.count("kani::stub")
+            print("== %s (kani): %d kani::assume, %d kani::stub; %d declared trusted entries" % (name, n_assume, n_stub, len(getattr(m, "TRUSTED", []))))
+            for t in getattr(m, "TRUSTED", []):
+                print("     trusted: " + t[:200])
+    return rc
+
+
 def main(argv):
     ap = argparse.ArgumentParser()
     ap.add_argument("prop", nargs="?")
@@ -349,6 +384,8 @@ def main(argv):
         return dev_unit(args.unit, units, args)
     for name, err in BROKEN_UNITS.items():
         print("warning: unit %s does not load: %s" % (name, err))
+    if args.scan:
+        return scan(units)
     if args.replay:
         from . import triage
         return triage.replay_file(args.replay, units, REPO)
